@@ -73,6 +73,7 @@ type Scn struct {
 	InspPermissive bool          `json:"insp_permissive,omitempty"` // inspection rules are ALLOW *
 	ExtraFinal map[string]string `json:"extra_final,omitempty"` // further files lying in the verification directory that no step reported
 	CertUnsorted bool            `json:"cert_unsorted,omitempty"` // c10: the certificate constraint lists several values in non-sorted order
+	Env        map[string]string `json:"env,omitempty"`        // environment the scenario ran under (time zone), for the replay
 	ExpectSummary string         `json:"expect_summary,omitempty"` // filled by materialise: the summary link an accepted verification must return
 	Seed       uint64            `json:"seed"`
 }
@@ -480,6 +481,9 @@ func pickSubset(r *lib.Rng, from []string, min, max int) []string {
 
 func baseScenario(r *lib.Rng, focus string, level int) *Scn {
 	sc := &Scn{Focus: focus, Level: level, Expires: future(), Expect: "accept"}
+	if tz := os.Getenv("TZ"); tz != "" && level == 0 {
+		sc.Env = map[string]string{"TZ": tz}
+	}
 	sc.Wrapper = []string{"legacy", "dsse"}[r.Intn(2)]
 	sc.Entry = "plain"
 	if level == 0 && r.Chance(1, 3) {
@@ -549,6 +553,9 @@ func genScenario(r *lib.Rng, focus string, idx int) *Scn {
 	}
 	sc.Defect = d
 	sc.Klass = focus + "/" + d
+	if tz := os.Getenv("TZ"); tz != "" {
+		sc.Klass = focus + "/tz=" + tz + "/" + d
+	}
 	needTwo := func(i int) {
 		st := &sc.Steps[i]
 		for len(st.Keys) < 2 {
@@ -2012,7 +2019,7 @@ func main() {
 			wr.Put(c)
 			os.RemoveAll(root)
 		}
-		if focus == "c06" {
+		if focus == "c06" && os.Getenv("TZ") == "" {
 			// a layout that expires while the process lives: accepted before, rejected after its expiry
 			rr := r.Fork()
 			sc := baseScenario(rr, focus, 0)
